@@ -192,3 +192,48 @@ Example C03_nonvacuous :
   /\ option_map snd (match dec_file id_d true (enc_file id_c ex3) with ROk r => Some r | _ => None end)
      = option_map snd (table_of ex3).
 Proof. split; vm_compute; reflexivity. Qed.
+Print Assumptions C03_nonvacuous.
+
+(* ==== the logical level: what the stored value MEANS and what convert() makes of it (Impl/RConvert.v) =========
+   logical_of = the meaning LogicalTypes.md gives a value of an annotated column; convert_model = the branch of
+   converted_types.convert on one value with numpy's fixed-width arithmetic explicit; column_of = the cast of the
+   assignment into the column typemap() allocated; denote = the numpy scalar read back (NaT = missing cell).
+   The theorem ranges over the finite table of (physical type, converted type) pairs, for EVERY value of the type:
+   wherever the representation can hold the value (`representable`), the reader's result means what the file says.
+   Tied to the code on every run: convert_model = the real convert() on boundary and random values of every row
+   (harness/props/C03.py convert_vs_model).  Outside: the float arithmetic of DECIMAL (the integer is covered),
+   JSON / BSON / INTERVAL, UTF-8 validity. *)
+From Pq Require Import Impl.RConvert Proofs.RConvertProofs.
+
+Theorem C03_convert_table_partial :
+  forall t conv, In (t, conv) conv_table ->
+  forall tlen scale v l, value_ok t tlen v = true -> representable t conv None v = true ->
+  logical_of t conv None scale v = Some l ->
+  exists c, convert_model t conv None scale v = ROk c /\ denote (column_of conv c) = Some (pandas_of l).
+Proof. exact convert_table_ok. Qed.
+Print Assumptions C03_convert_table_partial.
+
+Theorem C03_convert_logical_timestamp_partial :
+  forall u conv scale n, (n <? 256 ^ 8)%N = true -> n <> NAT64 ->
+  exists c, convert_model INT64 conv (Some u) scale (VNum n) = ROk c /\
+            denote (column_of None c) = logical_of INT64 conv (Some u) scale (VNum n).
+Proof. exact convert_logical_timestamp_ok. Qed.
+Print Assumptions C03_convert_logical_timestamp_partial.
+
+(* the two holes of `representable`, as theorems about the model (both reproduced on the real reader):
+   a DATE beyond 2262-04-11 wraps around (open finding C03-date-beyond-ns-range: 9999-12-31 reads as 1816-03-29) *)
+Theorem C03_date_beyond_ns_range_refuted :
+  logical_of INT32 (Some 6%Z) None 0%Z (VNum 2932896) = Some (LDate 2932896%Z)
+  /\ option_map (fun c => denote (column_of (Some 6%Z) c))
+       (match convert_model INT32 (Some 6%Z) None 0%Z (VNum 2932896) with ROk c => Some c | _ => None end)
+     = Some (Some (LTimestamp TNs (-4852202631933722624)%Z))
+  /\ pandas_of (LDate 2932896%Z) = LTimestamp TNs 253402214400000000000%Z.
+Proof. exact date_beyond_ns_wraps. Qed.
+Print Assumptions C03_date_beyond_ns_range_refuted.
+
+(* the timestamp -2^63 is numpy's in-band NaT: it reads as a missing cell *)
+Theorem C03_timestamp_min_reads_as_missing_refuted :
+  logical_of INT64 (Some 9%Z) None 0%Z (VNum NAT64) = Some (LTimestamp TMs (- 2 ^ 63)%Z)
+  /\ (exists c, convert_model INT64 (Some 9%Z) None 0%Z (VNum NAT64) = ROk c /\ denote (column_of (Some 9%Z) c) = None).
+Proof. exact timestamp_min_reads_as_missing. Qed.
+Print Assumptions C03_timestamp_min_reads_as_missing_refuted.
